@@ -29,6 +29,8 @@ def encodings(r):
     enc["neg"] = [x - 3 for x in r]
     enc["e18"] = [x * 10 ** 18 for x in r]
     enc["2p70"] = [2 ** 70 + x for x in r]
+    enc["e400"] = [x * 10 ** 400 for x in r]  # ints beyond the float range: any float() coercion of rank/score values overflows
+    enc["p400"] = [10 ** 400 + x for x in r]
     enc["2p70f"] = [float(2 ** 70) * (x + 1) for x in r]
     enc["gaps"] = [x * x * 3 + x for x in r]
     enc["tiny"] = [x * 5e-324 for x in r]
